@@ -130,7 +130,7 @@ class Dribble(io.RawIOBase):
 
 def corpus(ctx):
     tier = ctx.tier
-    nval = {"quick": 150, "thorough": 3000}[tier]
+    nval = {"quick": 150, "thorough": 1200}[tier]
     seen = set()
 
     def emit(label, data):
@@ -158,11 +158,15 @@ def corpus(ctx):
             r = emit("nat-" + label, data)
             if r:
                 yield r
+    short = {asm.assemble(p_) for p_ in asm.enumerate_programs(3)} if tier == "thorough" else set()
     for prog in asm.enumerate_programs({"quick": 3, "thorough": 4}[tier]):
-        r = emit("exh", asm.assemble(prog))
+        data_ = asm.assemble(prog)
+        if tier == "thorough" and data_ not in short and int(h(data_)[:2], 16) % 2:
+            continue          # every second length-4 program (all 41241 make the thorough tier run for over an hour)
+        r = emit("exh", data_)
         if r:
             yield r
-    for i in range({"quick": 1500, "thorough": 40000}[tier]):
+    for i in range({"quick": 1500, "thorough": 15000}[tier]):
         r = emit("rand", asm.assemble(asm.random_program(asm.rng_for(ctx.seed, f"c13r{i}"), max_len=30)))
         if r:
             yield r
